@@ -27,7 +27,7 @@ BATCH = 1
 TIMEOUT = 900
 HASHSEED = None
 REQUIRED_OBS = ["renderings_compared", "hash_seeds_compared", "repeat_renderings_compared", "schedules_run", "foreign_before_build", "foreign_between_build_and_render",
-                "foreign_between_renderings", "desc_explicit_lists", "desc_default_lists", "desc_ode_modifier", "desc_krome", "desc_ice"]
+                "foreign_between_renderings", "incremental_builds_compared", "desc_explicit_lists", "desc_default_lists", "desc_ode_modifier", "desc_krome", "desc_ice"]
 RULE = ("network descriptions {KIDA/UMIST gas network with default lists; the same with explicit element lists; with rate and ODE modifiers; "
         "ice network with user binding energies; KROME network with @var/@common; upper-case explicit lists} x PYTHONHASHSEED {0, 1, 2, "
         "random} x render twice x schedules with one foreign operation {network with upper-case lists, Leeds network (prefix G), replacement "
@@ -73,6 +73,18 @@ def make_case(rng, kind):
     if kind in ("default_lists", "explicit_lists", "ode_modifier"):
         fmt = rng.choice(["kida", "umist"])
         reacs = [r for r in reacs if encode.fits(fmt, r)]
+        # closing reactions: among species the earlier lines already introduced (they change who is connected to whom, not the species set)
+        used = sorted({n for r in reacs for n in r["reactants"] + r["products"]})
+        ncl = 0
+        for j in range(rng.randint(1, 3)):
+            if len(used) >= 2:
+                a, b2 = rng.sample(used, 2)
+                c = {"reactants": [a, b2], "products": [rng.choice(used)], "idx": len(reacs) + 1, "alpha": round(rng.uniform(0.1, 9), 3), "beta": 0.0, "gamma": 0.0,
+                     "tmin": -9999.0, "tmax": 9999.0, "formula": 3, "code": "NN", "pseudo": None}
+                if encode.fits(fmt, c):
+                    reacs.append(c)
+                    ncl += 1
+        d["closing_lines"] = ncl
         d["lines"] = {f"net.{fmt}": [encode.LINE[fmt](r) for r in reacs]}
         d["formats"] = [fmt]
         if kind != "default_lists":
@@ -235,6 +247,42 @@ def run_case(case, ctx):
                 diff = sorted(k for k in R if (got or {}).get(k) != R[k])
                 detail = f"{d['kind']}: foreign `{kind}` {slot.replace('_', ' ')} changes {diff[:4]}"
             viol.append(violation("history_dependence", detail, foreign=kind, slot=slot, desc_kind=d["kind"], **w))
+    # ---- the same network reached incrementally: part of the file, (render / species list read), the remaining lines added, render
+    if d["kind"] != "krome" and len(d["lines"]) == 1:
+        (fn, lines), fmt = next(iter(d["lines"].items())), d["formats"][0]
+        import random as _random
+        rr = _random.Random(sum(map(ord, "".join(lines))))
+        if len(lines) >= 2:
+            for variant in ("add_then_render", "render_then_add", "touch_then_add"):
+                k = rr.randint(1, len(lines) - 1)
+                if d.get("closing_lines") and variant != "add_then_render" and len(lines) - d["closing_lines"] >= 1:
+                    k = len(lines) - d["closing_lines"]       # the added lines bring no new species
+                    obs["incremental_no_new_species"] += 1
+                p1, p2 = work / f"inc_{variant}_1.{fmt}", work / f"inc_{variant}_2.{fmt}"
+                p1.write_text("\n".join(lines[:k]) + "\n")
+                p2.write_text("\n".join(lines[k:]) + "\n")
+                d1 = dict(d, files=[str(p1)])
+                steps = [{"op": "build", "slot": "T", "desc": d1}]
+                if variant == "render_then_add":
+                    steps.append(dict(op="render", slot="T", out=str(work / f"inc_{variant}_a"), tag="r0", **b))
+                elif variant == "touch_then_add":
+                    steps.append({"op": "touch", "slot": "T"})
+                steps += [{"op": "add_file", "slot": "T", "file": str(p2), "format": fmt}, {"op": "configure", "slot": "T", "desc": d},
+                          dict(op="render", slot="T", out=str(work / f"inc_{variant}_b"), tag="r1", **b)]
+                res = run_plan({"steps": steps}, work, "0", f"inc_{variant}")
+                if res.get("harness"):
+                    continue
+                obs["incremental_builds_compared"] += 1
+                obs["renderings_compared"] += 1
+                got = res["digests"].get("r1")
+                if variant == "render_then_add" and res.get("error") and "r0" not in res["digests"]:
+                    # the partial network itself could not be rendered (e.g. a species list that needs the full file): not a statement about history
+                    obs["incremental_partial_render_refused"] += 1
+                    continue
+                if got != R:
+                    diff = sorted(kk for kk in R if (got or {}).get(kk) != R[kk])
+                    viol.append(violation("history_dependence", f"{d['kind']}: network built from lines[:{k}] then `{variant}` the remaining lines renders differently from "
+                                          f"the network read in one go: {res.get('error') or diff[:4]}", variant=variant, split=k, desc_kind=d["kind"]))
     sample = {"description": d["kind"], "formats": d["formats"], "schedules": case["schedules"][:5], "files_in_tree": len(R)}
     return {"status": "violated" if viol else "held", "violations": viol[:30], "obs": dict(obs), "nontrivial": True, "sample": sample,
             "n_sched": len(case["schedules"])}
